@@ -32,6 +32,7 @@ type Engine struct {
 	extObserved []types.Type
 	chanDecls   []*ChanDecl
 	guardAssume    []string // assumptions of the guarded-by check
+	stateless      []statelessDecl
 	guardIfaceSites map[*ssa.MakeInterface][]string // interface hand-overs to library calls that need a foreign lock held
 	escIface       map[*ssa.Function][]*ssa.MakeInterface
 	escWrapper     map[*ssa.Function][]*ssa.Function
@@ -175,6 +176,9 @@ func (e *Engine) addFile(cf *ContractFile) {
 	e.ghosts = append(e.ghosts, cf.Ghosts...)
 	e.invariants = append(e.invariants, cf.Invariants...)
 	e.guarded = append(e.guarded, cf.Guarded...)
+	for _, props := range cf.Stateless {
+		e.stateless = append(e.stateless, statelessDecl{cf.Pkg, props})
+	}
 	e.chanDecls = append(e.chanDecls, cf.ChanDecls...)
 	for _, l := range cf.Lemmas {
 		if l.Model == "" {
@@ -554,6 +558,11 @@ func (e *Engine) globalImmutable(g *ssa.Global) bool {
 								res = 2
 							}
 						}
+					}
+				case *ssa.Slice:
+					// slicing an array variable yields a writable view of it
+					if rootGlobal(x.X) == g {
+						res = 2
 					}
 				}
 			}
@@ -1645,4 +1654,96 @@ func (e *Engine) chanAliasObligations() []*Obligation {
 		out = append(out, o)
 	}
 	return out
+}
+
+type statelessDecl struct {
+	Pkg   string
+	Props []string
+}
+
+// statelessObligations: `stateless package [props]` — the package keeps no mutable package-level state, so that two
+// activations of its functions (two decoders, two requests) cannot influence each other through it. One structural
+// obligation per package-level variable of the package: it is assigned only by the package initialiser and no writable
+// view of it (its address, a slice of it) is created anywhere in the repository.
+func (e *Engine) statelessObligations(prop string) []*Obligation {
+	var out []*Obligation
+	for _, d := range e.stateless {
+		has := false
+		for _, p := range d.Props {
+			has = has || p == prop
+		}
+		if !has {
+			continue
+		}
+		sp := e.spkgs[d.Pkg]
+		if sp == nil {
+			continue
+		}
+		var names []string
+		for n, m := range sp.Members {
+			if _, ok := m.(*ssa.Global); ok && !strings.HasPrefix(n, "init$") {
+				names = append(names, n)
+			}
+		}
+		sort.Strings(names)
+		u := newUnit("stateless/" + d.Pkg)
+		out = append(out, &Obligation{Name: shortPkg(d.Pkg) + "/stateless.package", Kind: "stateless", Func: shortPkg(d.Pkg), Goal: "true", PC: "true", Unit: u, Props: []string{prop}, Structural: true, StructOK: true, Note: fmt.Sprintf("%d package-level variables scanned", len(names)), Desc: "package " + shortPkg(d.Pkg) + " declares no mutable package-level state (one obligation per variable follows)"})
+		for _, n := range names {
+			g := sp.Members[n].(*ssa.Global)
+			ok := e.globalImmutable(g) && !e.globalAddressEscapes(g)
+			o := &Obligation{Name: shortPkg(d.Pkg) + "/stateless." + n, Kind: "stateless", Func: shortPkg(d.Pkg), Goal: "true", PC: "true", Unit: u, Props: []string{prop}, Structural: true, StructOK: ok, Desc: "package-level variable " + n + " is assigned only by the package initialiser and no writable view of it escapes (scan of every use in the repository)"}
+			if !ok {
+				o.Note = "package-level variable " + n + " is written, sliced or has its address taken outside init: state shared by all activations"
+			}
+			out = append(out, o)
+		}
+	}
+	return out
+}
+
+// globalAddressEscapes: the address of g (or of a part of it) is used for anything but loading from it.
+func (e *Engine) globalAddressEscapes(g *ssa.Global) bool {
+	for fn := range e.allFuncs {
+		if !e.inRepo(fn) || (fn.Name() == "init" && fn.Pkg == g.Pkg) {
+			continue
+		}
+		for _, b := range fn.Blocks {
+			for _, ins := range b.Instrs {
+				for _, op := range ins.Operands(nil) {
+					if op == nil || *op == nil || rootGlobal(*op) != g {
+						continue
+					}
+					switch x := ins.(type) {
+					case *ssa.UnOp:
+						if x.Op == token.MUL {
+							// loaded: a map or slice held in the variable must not be updated in place either
+							if x.Referrers() != nil {
+								for _, r := range *x.Referrers() {
+									switch y := r.(type) {
+									case *ssa.MapUpdate:
+										if y.Map == ssa.Value(x) {
+											return true
+										}
+									case *ssa.IndexAddr:
+										if y.X == ssa.Value(x) && y.Referrers() != nil {
+											for _, r2 := range *y.Referrers() {
+												if st, ok := r2.(*ssa.Store); ok && st.Addr == ssa.Value(y) {
+													return true
+												}
+											}
+										}
+									}
+								}
+							}
+							continue
+						}
+					case *ssa.FieldAddr, *ssa.IndexAddr, *ssa.DebugRef:
+						continue
+					}
+					return true
+				}
+			}
+		}
+	}
+	return false
 }
